@@ -55,9 +55,11 @@ var (
 
 			// if the opposing side is false we can't short-circuit based on
 			// boolean logic, so an unknown becomes the controlling condition
-			case !lhs.IsKnown() && rhs.False():
+			// (a null operand is never false: it is an error that the operator
+			// implementation reports, so it must not decide anything here)
+			case !lhs.IsKnown() && !rhs.IsNull() && rhs.False():
 				return cty.UnknownVal(cty.Bool).RefineNotNull(), lhsDiags
-			case !rhs.IsKnown() && lhs.False():
+			case !rhs.IsKnown() && !lhs.IsNull() && lhs.False():
 				return cty.UnknownVal(cty.Bool).RefineNotNull(), rhsDiags
 			}
 
@@ -82,9 +84,11 @@ var (
 				return cty.NilVal, nil
 
 			// For &&, a single false is the controlling condition
-			case lhs.IsKnown() && lhs.False():
+			// (a null operand is never false: it is an error that the operator
+			// implementation reports, so it must not decide anything here)
+			case lhs.IsKnown() && !lhs.IsNull() && lhs.False():
 				return cty.False, lhsDiags
-			case rhs.IsKnown() && rhs.False():
+			case rhs.IsKnown() && !rhs.IsNull() && rhs.False():
 				return cty.False, rhsDiags
 
 			// if the opposing side is true we can't short-circuit based on
